@@ -1,15 +1,17 @@
 #!/bin/bash
 # usage: tools/confirm_mutant.sh <Cxx> <k>   (reads /tmp/wt/<Cxx>/MUTANTS/<k>/)
-# Confirms in a fresh scratch worktree of /repo HEAD: demo passes on original, fails with the patch,
+# Confirms in the scratch worktree /tmp/wt/<Cxx> (reset to /repo HEAD): demo passes on original, fails with the patch,
 # and the repository's baseline tests still pass with the patch. On success copies the mutant
 # to /verif/seeded/<Cxx>-<k>/ with a meta.json stub. The scratch worktree is removed afterwards.
 id="$1"; k="$2"
 src=/tmp/wt/$id/MUTANTS/$k
-wt=/tmp/wt/confirm-$id-$k
+# the agent's own scratch worktree is re-used (demos may assert their location); it is brought to /repo HEAD
+wt=/tmp/wt/$id
 [ -f "$src/patch.diff" ] || { echo "no patch at $src"; exit 2; }
-git -C /repo worktree add --detach -f "$wt" HEAD >/dev/null 2>&1 || exit 2
+git -C "$wt" checkout -q -- src tests 2>/dev/null
+git -C "$wt" checkout -q --detach "$(git -C /repo rev-parse HEAD)" || exit 2
 cp /repo/src/pygaps/_version.py "$wt/src/pygaps/_version.py"
-cleanup() { git -C /repo worktree remove --force "$wt" >/dev/null 2>&1; rm -rf "$wt"; }
+cleanup() { git -C "$wt" checkout -q -- src tests 2>/dev/null; }
 trap cleanup EXIT
 cp "$src/demo.py" "$wt/demo.py"
 run_demo() { (cd "$wt" && env -u PYGAPS_VERIF PYTHONPATH="$wt/src" timeout 600 /venv/bin/python demo.py >"$wt/demo.out" 2>&1; echo $?); }
@@ -30,7 +32,7 @@ import json, sys, os
 dst, pid, rc0, rc1, base, tail = sys.argv[1:7]
 notes = open(os.path.join(dst, "notes.md")).read() if os.path.exists(os.path.join(dst, "notes.md")) else ""
 meta = {"property": pid, "needs_to_manifest": notes.strip(), "confirmed": {
-    "how": "tools/confirm_mutant.sh in a fresh scratch worktree of /repo HEAD (removed afterwards)",
+    "how": "tools/confirm_mutant.sh in the scratch worktree /tmp/wt/<id> reset to /repo HEAD (worktree removed after the session)",
     "repo_head": os.popen("git -C /repo log --format=%h -1").read().strip(),
     "demo_rc_on_original": int(rc0), "demo_rc_with_change": int(rc1), "baseline_with_change": base, "demo_output_with_change": tail},
     "caught_by": "(filled in by tools/run_seeded.sh)"}
